@@ -8,9 +8,12 @@ import (
 	"crypto/sha256"
 	"fmt"
 	"github.com/decred/dcrd/dcrec/secp256k1/v4/ecdsa"
+	"github.com/obolnetwork/charon/zzverif/fakebn"
 	"sort"
 	"strings"
+	"sync"
 	"testing"
+	"time"
 
 	eth2v1 "github.com/attestantio/go-eth2-client/api/v1"
 	eth2p0 "github.com/attestantio/go-eth2-client/spec/phase0"
@@ -62,6 +65,33 @@ func keysFor(n int) []*k1.PrivateKey {
 	return ks
 }
 
+var (
+	gaterOnce sync.Once
+	gaterFn   core.DutyGaterFunc
+	gaterBN   *fakebn.BN
+)
+
+// productionGater is core.NewDutyGater over the scripted beacon node with the clock fixed at slot 100
+// (2 future epochs allowed): the component's real notion of "allowed duty".
+func productionGater() core.DutyGaterFunc {
+	gaterOnce.Do(func() {
+		gaterBN = fakebn.New()
+		now := gaterBN.GenesisTime.Add(100 * gaterBN.SlotDur)
+		g, err := core.NewDutyGater(context.Background(), gaterBN, core.WithDutyGaterForT(&testing.T{}, func() time.Time { return now }, 2))
+		if err != nil {
+			panic("HARNESS-ERROR: gater: " + err.Error())
+		}
+		gaterFn = g
+	})
+	return gaterFn
+}
+
+// firstGatedSlot is the first slot beyond the gater's window.
+func firstGatedSlot() uint64 {
+	productionGater()
+	return (100/gaterBN.SPE + 3) * gaterBN.SPE
+}
+
 func newConsensusForHandle(n int) (*Consensus, *fakeDeadliner) {
 	dl := &fakeDeadliner{expired: map[core.Duty]bool{}, ch: make(chan core.Duty)}
 	c := &Consensus{}
@@ -70,7 +100,7 @@ func newConsensusForHandle(n int) (*Consensus, *fakeDeadliner) {
 		c.pubkeys[int64(i)] = k.PubKey()
 	}
 	c.deadliner = dl
-	c.gaterFunc = func(d core.Duty) bool { return d.Type.Valid() && d.Slot < 1000 }
+	c.gaterFunc = productionGater()
 	c.mutable.instances = make(map[core.Duty]*instance.IO[Msg])
 	return c, dl
 }
@@ -483,7 +513,12 @@ func TestC05Handle(t *testing.T) {
 		case kind == 15: // duty not allowed / expired
 			if rapid.Bool().Draw(rt, "gateOrExpire") {
 				cl := proto.Clone(m.Msg).(*pbv1.QBFTMsg)
-				cl.Duty.Slot = 5000 // beyond the gater window, validly signed, no justifications
+				// beyond the gater window (also far beyond, including values that are negative when read as
+				// signed integers), validly signed, no justifications
+				cl.Duty.Slot = firstGatedSlot() + uint64(rapid.IntRange(0, 5000).Draw(rt, "beyond"))
+				if rapid.IntRange(0, 2).Draw(rt, "hugeSlot") == 0 {
+					cl.Duty.Slot = rapid.SampledFrom([]uint64{1 << 63, 1<<63 + 40, 1<<63 + 1<<62, ^uint64(0), ^uint64(0) - 31, 1 << 62, 1 << 32, 1<<63 - 1}).Draw(rt, "hugeSlotValue")
+				}
 				m.Msg = resign(cl, keys[cl.PeerIdx])
 				m.Justification = nil
 				how = "gated"
